@@ -18,6 +18,7 @@ import numpy as np
 
 from vlib.gen.drivers import Runaway
 from vlib.gen.drivers import absent_optional_packages
+from vlib.gen.drivers import custom_samples
 from vlib.gen.drivers import doe_capabilities
 from vlib.gen.drivers import doe_cases
 from vlib.gen.drivers import HarnessProblem
@@ -62,11 +63,18 @@ ASSUMPTIONS = [
     "Augmented_Lagrangian_* to max_iter entries in the main database and max_iter * sub max_iter further distinct "
     "points (sub-problems are built on the original functions with their own database); MNBI to max_iter entries "
     "in the main database, and all of them to 'returns a result'",
+    "MNBI is excluded: " + "multi-objective only, result built from the Pareto front of the history (C04), documented "
+    "RuntimeError when a sub-optimisation ends without a feasible optimum (what a spent budget produces)",
+    "NLOPT_NEWUOA needs dimension >= 2 (NLopt) and is only given max_iter <= 2*dim-1 and never used for the second "
+    "execution: once GEMSEO forces a stop at or after the last point of its initial interpolation set NLopt's C code "
+    "spends 30-90 s before returning (no budget is exceeded, the time budget of the check is)",
+    "at most as many equality-constraint components as design variables (NLopt's SLSQP otherwise fails with 'bug: "
+    "workspace is too small')",
     "ScipyLinprog / ScipyMILP read coefficients and never call the functions while solving: their result is built "
     "from the solver's answer (not from the database), so only type, bounds and budget are checked for them and the "
     "constraints are made feasible at x0 (an infeasible LP is outside the property)",
     "an objective that returns NaN is generated with problem.stop_if_nan left at its default True",
-    "a run whose callables are called more than 4000 times (far above any generated budget) is cut by the harness "
+    "a run whose callables are called more than 1500 times (far above any generated budget) is cut by the harness "
     "(Runaway) and reported as 'nothing stopped the driver'",
     "third-party internal caches count as part of the algorithm: repeated calls at one point are never counted twice",
     "with max_time only the degenerate value 1e-9 is generated (fires at the first new-iteration callback; no "
@@ -79,8 +87,17 @@ ASSUMPTIONS = [
 K_DB_OFF = "database_off_budget_not_enforced"
 K_AL1_RESET = "augmented_lagrangian_order_1_counter_reset"
 K_LP_EXTRA_POINT = "coefficient_solver_final_evaluation_outside_budget"
+K_LP_EARLY_STOP = "coefficient_solver_early_stop_type_error"
+K_GLOBAL_LISTENER = "global_optimizer_listener_left_behind"
+K_MULTISTART_NORM = "multistart_normalized_design_space"
 
-CAP_CALLS = 4000
+EXCLUDED_ALGORITHMS = {
+    "MNBI": "multi-objective only: its result is a MultiObjectiveOptimizationResult built from the Pareto front of the "
+            "history (C04's matter; it fails on duplicated non-dominated points, P13), it documents a RuntimeError when a "
+            "sub-optimisation ends without a feasible optimum - which is what a spent budget produces - and forbids "
+            "normalisation: no single-level budget statement applies",
+}
+CAP_CALLS = 1500
 _CAPS = {}
 
 
@@ -92,11 +109,15 @@ def caps():
 
 
 # --------------------------------------------------------------------------- helpers
+class Excluded(Exception):
+    """The case belongs to the class of an open ledger entry (or to a documented exception): no verdict."""
+
+
 def _execute(h, algo, max_iter, settings, extra, ctx, where):
     """Run one optimisation; return (result, runaway).  Any exception other than the harness cap is a violation."""
     from gemseo.algos.opt.factory import OptimizationLibraryFactory
 
-    gc.collect()  # finalizers of multiprocessing.Value objects must not run inside C callbacks
+    gc.disable()  # finalizers of multiprocessing.Value objects must not run inside the C callbacks of NLopt
     try:
         with warnings.catch_warnings():
             warnings.simplefilter("ignore")
@@ -106,8 +127,16 @@ def _execute(h, algo, max_iter, settings, extra, ctx, where):
     except Exception as exc:  # noqa: BLE001
         if h.state["runaway"]:
             return None, True
+        if algo == "MNBI" and isinstance(exc, RuntimeError) and "No feasible optimum found" in str(exc):
+            ctx.cls("mnbi_documented_runtime_error")  # documented: "RuntimeError: If no optimum is found for one of the objectives"
+            return None, False
+        if (caps()["opt"][algo]["library"] in ("ScipyLinprog", "ScipyMILP") and isinstance(exc, TypeError)
+                and "_get_result() missing" in str(exc) and ctx.known(K_LP_EARLY_STOP)):
+            raise Excluded from None
         ctx.fail("returns", f"{where}: execute raised {type(exc).__name__}: {str(exc)[:300]} instead of returning a result",
                  algo=algo, max_iter=max_iter)
+    finally:
+        gc.enable()
     return result, h.state["runaway"]
 
 
@@ -128,7 +157,7 @@ def _counted_points(h, marks, db_keys):
 
 def _stored(problem, x, name):
     v = problem.database.get_function_value(name, x)
-    return None if v is None else np.atleast_1d(np.asarray(v, dtype=float))
+    return None if v is None else np.atleast_1d(np.asarray(v).real.astype(float))
 
 
 def _ref_feasible(h, x, eq_tol, ineq_tol):
@@ -172,7 +201,7 @@ def _check_result(h, result, p, settings, ctx, where, coefficient_solver):
     std = problem.minimize_objective or problem.use_standardized_objective
     f_here = objs[idx[0]]
     if f_here is not None and result.f_opt is not None:
-        got = float(np.atleast_1d(result.f_opt)[0])
+        got = float(np.real(np.atleast_1d(result.f_opt)[0]))
         exp = float(f_here[0]) if std else -float(f_here[0])
         ctx.check(got == exp or (np.isnan(got) and np.isnan(exp)), "result", f"{where}: f_opt={got} but the value recorded at x_opt is {exp}")
     ctx.check(bool(result.is_feasible) == feas[idx[0]] or (any(feas) and bool(result.is_feasible)), "result",
@@ -242,6 +271,15 @@ def case_opt(p, ctx):
     if any(v["type"] == "integer" for v in p["problem"]["space"]["vars"]):
         ctx.cls("integer_variables")
 
+    try:
+        if algo == "MultiStart" and settings["normalize_design_space"] and ctx.known(K_MULTISTART_NORM):
+            raise Excluded
+        _case_opt(p, ctx, cp, algo, cap, h, settings, use_db, n_iter, coefficient_solver)
+    except Excluded:
+        ctx.cls("excluded_by_known_finding")
+
+
+def _case_opt(p, ctx, cp, algo, cap, h, settings, use_db, n_iter, coefficient_solver):
     # ----- first execution
     marks = h.mark()
     result, runaway = _execute(h, algo, n_iter, settings, p["extra"], ctx, "first execution")
@@ -258,6 +296,8 @@ def case_opt(p, ctx):
     if not use_db:
         ctx.check(result is not None and result.x_opt is not None, "result",
                   "first execution: use_database=False: the result has no optimum (no history to build it from)")
+        return
+    if result is None:  # documented exception of MNBI
         return
     _check_result(h, result, p, settings, ctx, "first execution", coefficient_solver)
     message = str(result.message)
@@ -282,6 +322,8 @@ def case_opt(p, ctx):
 
     # ----- second execution on the same problem
     second = p.get("second")
+    if second is not None and cap["global"] and p["problem"]["cons"] and ctx.known(K_GLOBAL_LISTENER):
+        second = None
     if second is not None and second["algo"] in cp and not problem_matches(cp[second["algo"]], p["problem"]):
         algo2, n2, reset = second["algo"], int(second["max_iter"]), bool(second["reset"])
         cap2 = cp[algo2]
@@ -314,16 +356,226 @@ def case_composite(p, ctx):
     case_opt(p, ctx)
 
 
-ORACLES = {"opt": case_opt, "composite": case_composite}
+def _timed(fn):
+    import os
+    import time
+
+    if not os.environ.get("C03_DEBUG_TIMING"):
+        return fn
+
+    def wrapper(p, ctx):
+        t0 = time.time()
+        try:
+            return fn(p, ctx)
+        finally:
+            if time.time() - t0 > 1.0:
+                print("SLOW", round(time.time() - t0, 1), p["algo"], p.get("max_iter"), p.get("stop"), p.get("second"), p.get("settings"), flush=True)
+
+    return wrapper
+
+
+# --------------------------------------------------------------------------- DOE oracle
+def _doe_settings(p, h, seed_shift=0):
+    s = dict(p["settings"])
+    if "__levels__" in s:
+        return {"samples": custom_samples(h.space, s["__levels__"])}
+    if "initial_point" in s:
+        s["initial_point"] = np.array(s["initial_point"], dtype=float)
+    if seed_shift:
+        for key in ("seed", "random_state"):
+            if key in s:
+                s[key] = int(s[key]) + seed_shift
+        if "doe_algo_settings" in s and "random_state" in s["doe_algo_settings"]:
+            s["doe_algo_settings"] = dict(s["doe_algo_settings"], random_state=int(s["doe_algo_settings"]["random_state"]) + seed_shift)
+    return s
+
+
+def _run_doe(h, p, ctx, where, seed_shift=0, **more):
+    from gemseo.algos.doe.factory import DOELibraryFactory
+    from gemseo.algos.optimization_result import OptimizationResult
+
+    lib = DOELibraryFactory().create(p["algo"])
+    settings = _doe_settings(p, h, seed_shift)
+    try:
+        with warnings.catch_warnings():
+            warnings.simplefilter("ignore")
+            result = lib.execute(h.problem, eval_jac=bool(p["eval_jac"]), normalize_design_space=bool(p["normalize_design_space"]),
+                                 **settings, **more)
+    except Exception as exc:  # noqa: BLE001
+        ctx.fail("doe_returns", f"{where}: {p['algo']}.execute raised {type(exc).__name__}: {str(exc)[:300]}")
+    ctx.check(isinstance(result, OptimizationResult), "doe_returns", f"{where}: execute returned {type(result).__name__}")
+    samples = np.asarray(lib.samples)
+    ctx.check(samples.ndim == 2 and samples.shape[1] == h.space.dim, "doe_samples", f"{where}: samples have shape {samples.shape}")
+    return result, samples.real.astype(float)
+
+
+def _match(key, sample, tol):
+    return key.shape == sample.shape and bool(np.all(np.abs(key - sample) <= tol))
+
+
+def _doe_oracles(h, p, ctx, where, samples, old_keys, marks, budget_left):
+    """Compare the database and the call records with the generated samples.
+
+    ``old_keys``: keys present before this execution; ``budget_left``: None (all samples allowed) or the
+    number of new entries the kept counter still allows.
+    """
+    space = h.space
+    exact = not p["normalize_design_space"]
+    # normalise / unnormalise round trip: a few ulp of the bound scale
+    tol = 0.0 if exact else 4 * np.finfo(float).eps * np.maximum(np.maximum(np.abs(space.lb), np.abs(space.ub)), space.ub - space.lb)
+    keys = [k.real.astype(float) for k in h.db_keys()]
+    new_keys = [k for k in keys if point_key(k) not in old_keys]
+    failing = set()
+    nan_keys = set()
+    for counted in h.counted:
+        failing |= counted.raised_keys
+        nan_keys |= counted.nan_keys
+    # distinct samples in generation order (a sample equal to an old key is not new)
+    distinct = []
+    for srow in samples:
+        if not any(_match(d, srow, tol) for d in distinct):
+            distinct.append(srow)
+    n_dup = len(samples) - len(distinct)
+
+    def key_of(srow, pool):
+        for k in pool:
+            if _match(k, srow, tol):
+                return k
+        return None
+
+    old_arr = [np.frombuffer(k, dtype=float) for k in old_keys]
+    fresh = [srow for srow in distinct if key_of(srow, old_arr) is None]
+    # every new key is a generated sample
+    for k in new_keys:
+        ctx.check(any(_match(k, srow, tol) for srow in fresh), "doe_keys", f"{where}: database key {k.tolist()} is not a generated sample")
+    # physical point seen by the callables for a sample: the database key when it exists, else the sample itself
+    def seen_key(srow):
+        k = key_of(srow, new_keys)
+        if k is not None:
+            return point_key(k)
+        for counted in h.counted:
+            for key in counted.order:
+                if _match(np.frombuffer(key, dtype=float), srow, tol):
+                    return key
+        return point_key(srow)
+
+    fresh_ok = [srow for srow in fresh if seen_key(srow) not in failing]
+    new_ok_keys = [k for k in new_keys if point_key(k) not in failing]
+    if budget_left is None:
+        expected = fresh_ok
+    else:
+        ctx.check(len(new_keys) <= budget_left, "doe_budget",
+                  f"{where}: {len(new_keys)} new entries although the kept counter only allowed {budget_left}")
+        expected = fresh_ok[: len(new_ok_keys)]  # a prefix, in generation order
+    ctx.check(len(new_ok_keys) == len(expected) and all(_match(k, srow, tol) for k, srow in zip(new_ok_keys, expected)), "doe_order",
+              f"{where}: database keys of the non-failing samples are not the de-duplicated samples in generation order",
+              keys=[k.tolist() for k in new_ok_keys][:12], samples=[srow.tolist() for srow in expected][:12])
+    # each distinct sample evaluated exactly once by every function, exact value recorded
+    names = [h.obj_name, *h.con_names]
+    for k in new_ok_keys:
+        kb = point_key(k)
+        for i, (counted, name) in enumerate(zip(h.counted, names)):
+            n_calls = counted.n_calls_at(kb, "f", marks[i])
+            ctx.check(n_calls == 1, "doe_once", f"{where}: function {counted.poly.name} was called {n_calls} times at sample {k.tolist()}")
+            stored = h.problem.database.get_function_value(name, k)
+            ctx.check(stored is not None, "doe_values", f"{where}: no value of {name} recorded at sample {k.tolist()}")
+            ref = np.atleast_1d(counted.poly.value(k))
+            if i == 0 and h.spec.get("maximize"):
+                ref = -ref
+            got = np.atleast_1d(np.asarray(stored, dtype=float))
+            if kb in counted.nan_keys:
+                ctx.check(got.shape == ref.shape and bool(np.isnan(got).all()), "doe_values", f"{where}: NaN value of {name} not recorded as NaN")
+            else:
+                ctx.check(got.shape == ref.shape and bool(np.all(got == ref)), "doe_values",
+                          f"{where}: {name} recorded as {got.tolist()} at {k.tolist()}, the function returned {ref.tolist()}")
+            if p["eval_jac"]:
+                n_j = counted.n_calls_at(kb, "j", marks[i])
+                ctx.check(n_j == 1, "doe_once", f"{where}: Jacobian of {counted.poly.name} was called {n_j} times at sample {k.tolist()}")
+    # failing samples: the raising function is not retried, the others are called at most once
+    for kb in failing:
+        for i, counted in enumerate(h.counted):
+            ctx.check(counted.n_calls_at(kb, "f", marks[i]) <= 1, "doe_once", f"{where}: function {counted.poly.name} was called more than once at a failing sample")
+    # nothing else was evaluated
+    allowed_pts = {seen_key(srow) for srow in fresh} | {point_key(k) for k in new_keys}
+    for counted, m in zip(h.counted, marks):
+        for key in counted.distinct_points(m):
+            ctx.check(key in allowed_pts or key in old_keys, "doe_keys",
+                      f"{where}: function {counted.poly.name} was called at {np.frombuffer(key, dtype=float).tolist()}, which is not a generated sample")
+    return {"n_samples": len(samples), "n_distinct": len(distinct), "n_dup": n_dup, "n_fresh": len(fresh), "n_failing": len(failing),
+            "n_new": len(new_keys), "n_nan": len(nan_keys)}
+
+
+def case_doe(p, ctx):
+    cd = caps()["doe"]
+    algo = p["algo"]
+    if algo not in cd:
+        ctx.cls("algorithm_not_in_factory")
+        return
+    seed = int(p["seed"])
+    np.random.seed(seed)
+    try:
+        import openturns
+
+        openturns.RandomGenerator.SetSeed(seed)
+    except ImportError:
+        pass
+    h = HarnessProblem(p["problem"], cap=CAP_CALLS)
+    ctx.cls(f"doe:{algo}")
+    marks = h.mark()
+    result, samples = _run_doe(h, p, ctx, "first execution")
+    stats = _doe_oracles(h, p, ctx, "first execution", samples, set(), marks, None)
+    counter = int(h.problem.evaluation_counter.current)
+    ctx.check(counter == stats["n_new"], "counter", f"the evaluation counter holds {counter} after a DOE that created {stats['n_new']} entries")
+    if stats["n_dup"]:
+        ctx.cls("doe_duplicated_samples")
+    if stats["n_failing"]:
+        ctx.cls("doe_failing_samples")
+    if stats["n_nan"]:
+        ctx.cls("doe_nan_values")
+    if p["normalize_design_space"]:
+        ctx.cls("doe_normalized")
+    if p["eval_jac"]:
+        ctx.cls("doe_eval_jac")
+    if any(v["type"] == "integer" for v in p["problem"]["space"]["vars"]):
+        ctx.cls("doe_integer_variables")
+    if stats["n_dup"] or stats["n_failing"]:
+        ctx.nontriv(p)
+    ctx.extra["max_doe_samples"] = max(ctx.extra.get("max_doe_samples", 0), stats["n_samples"])
+
+    second = p.get("second")
+    if second is not None:
+        reset = bool(second["reset"])
+        ctx.cls("doe_second_execution", "doe_second_reset" if reset else "doe_second_keeps_counters")
+        old_keys = {point_key(k) for k in h.db_keys()}
+        marks2 = h.mark()
+        for counted in h.counted:
+            counted.raised_keys.clear()
+        _, samples2 = _run_doe(h, p, ctx, "second execution", seed_shift=0 if second["same_seed"] else 1, reset_iteration_counters=reset)
+        left = None if reset else max(0, len(samples2) - counter)
+        stats2 = _doe_oracles(h, p, ctx, "second execution", samples2, old_keys, marks2, left)
+        if stats2["n_fresh"]:
+            ctx.cls("doe_second_with_new_samples")
+            if left is not None and stats2["n_new"] < stats2["n_fresh"] - stats2["n_failing"]:
+                ctx.cls("doe_second_cut_by_kept_counter")
+                ctx.nontriv(("second", p))
+    ctx.sample({"oracle": "doe", "algo": algo, "settings": p["settings"], **stats, "second": p.get("second")})
+
+
+ORACLES = {"opt": case_opt, "composite": case_composite, "doe": case_doe}
 
 
 def run(ctx):
     cp = caps()
     names = sorted(cp["opt"])
     single = [n for n in names if not cp["opt"][n]["composite"]]
-    composite = [n for n in names if cp["opt"][n]["composite"]]
+    composite = [n for n in names if cp["opt"][n]["composite"] and n not in EXCLUDED_ALGORITHMS]
     ctx.extra["skipped_algorithms"] = absent_optional_packages()
+    ctx.extra["excluded_algorithms"] = [f"{k}: {v}" for k, v in EXCLUDED_ALGORITHMS.items()]
     ctx.extra["optimization_algorithms"] = names
     ctx.extra["doe_algorithms"] = sorted(cp["doe"])
-    ctx.drive("opt", opt_cases(cp["opt"], single), case_opt, quick=170, thorough=1500)
-    ctx.drive("composite", opt_cases(cp["opt"], composite), case_composite, quick=30, thorough=300)
+    non_global = [n for n in single if not cp["opt"][n]["global"]]
+    for name in single:  # one drive per algorithm: every algorithm is exercised at every seed
+        ctx.drive("opt", opt_cases(cp["opt"], [name], non_global), _timed(case_opt), quick=9, thorough=90)
+    for name in composite:
+        ctx.drive("composite", opt_cases(cp["opt"], [name]), _timed(case_composite), quick=7, thorough=70)
+    ctx.drive("doe", doe_cases(cp["doe"], sorted(cp["doe"])), _timed(case_doe), quick=150, thorough=1500)
